@@ -1,9 +1,13 @@
 """C03 on the symbolic repository (see gitprops.py)."""
-from . import gitprops
+from . import gitprops, histcheck
 
 
 def check(rep):
     gitprops.run(rep, 'C03')
+    histcheck.check(rep, 'C03')
 
 
-replay = gitprops.replay
+def replay(data):
+    if 'history' in data:
+        return histcheck.replay('C03', data)
+    return gitprops.replay(data)
